@@ -38,12 +38,6 @@ class SchedAbort(BaseException):
     """Raised inside worker threads to unwind them after a fatal scheduling event."""
 
 
-class Fatal(Exception):
-    def __init__(self, kind, detail):
-        super().__init__(kind)
-        self.kind, self.detail = kind, detail
-
-
 # ---------------------------------------------------------------------------
 # cooperative locks
 # ---------------------------------------------------------------------------
@@ -355,7 +349,7 @@ _POOL: list = []
 
 class _T:
     __slots__ = ('tid', 'fn', 'sem', 'worker', 'done', 'waiting', 'result', 'error', 'n_any', 'n_focus', 'n_lock', 'last',
-                 'locs', 'loc_n')
+                 'locs', 'loc_n', 'busy')
 
     def __init__(self, tid, fn):
         self.tid, self.fn = tid, fn
@@ -369,6 +363,7 @@ class _T:
         self.last = None
         self.locs = {}           # focus location (file, line[, instruction offset]) -> visits so far
         self.loc_n = 0           # visits of the location of the current focus event
+        self.busy = False        # inside the scheduler: code run from here (GC/weakref callbacks) is not a yield point
 
     def __repr__(self):
         return f'T{self.tid}'
@@ -425,6 +420,15 @@ class Scheduler:
     def yield_point(self, me: _T, kind: str):
         if self.fatal is not None:
             raise SchedAbort()
+        if me.busy:
+            return
+        me.busy = True
+        try:
+            self._yield_point(me, kind)
+        finally:
+            me.busy = False
+
+    def _yield_point(self, me: _T, kind: str):
         me.n_any += 1
         if kind == 'focus':
             me.n_focus += 1
@@ -491,7 +495,7 @@ class Scheduler:
 
         def global_trace(frame, event, arg):
             k = fk(frame.f_code.co_filename)
-            if k == 0:
+            if k == 0 or me.busy:
                 return None
             if k == 3:
                 frame.f_trace_opcodes = True
